@@ -1,14 +1,17 @@
 from ..fam import vector
 
 
+from ..fam import history
+
+
 def cases(tier):
-    return vector.cases(tier, 'func')
+    return history.cases(tier, 1) + vector.cases(tier, 'func')
 
 
 def meta(tier):
     i = vector.info(tier)
     return {'level': 'model_checking', 'bounds': i['bounds'],
-            'outside': ['capacities above the bound', 'element sizes not listed', 'histories are covered through the inductive argument only: base (constructor) + one step from every valid state within the capacity bound'],
+            'outside': ['capacities above the bound', 'element sizes not listed', 'three-call histories through the public API (every triple of operation kinds, symbolic arguments) in addition to the inductive argument: base (constructor) + one step from every valid state within the capacity bound'],
             'stubs': i['stubs'],
             'assumptions': [i['prestate'], 'malloc does not fail here (C15 covers failure)'],
             'explanation': 'Inductive step by bounded symbolic execution of the real qvector.c: pre-state = every valid vector state for a fixed capacity/element size (num, bytes symbolic), one API call with symbolic index/value/flags, '
